@@ -334,6 +334,11 @@ impl<'p> CoroutinePool<'p> {
             self.notify(task_id);
             return Ok(r);
         }
+        if PoolState::Stopped == self.state() {
+            // the pool has already cleaned up its waiters, nobody would wake us
+            _ = self.waits.remove(&task_id);
+            return Ok(Err("The coroutine pool has stopped"));
+        }
         let (lock, cvar) = &*arc;
         drop(
             cvar.wait_timeout_while(
